@@ -80,6 +80,7 @@ class Scheduler(object):
         self.error = None
         self.shared_prefixes = tuple(shared_prefixes)
         self.switches = 0
+        self.aborted = False
         self.interleaving = []      # (pid, op, path) restricted to shared paths
 
     # ---- context switching -------------------------------------------------
@@ -131,6 +132,9 @@ class Scheduler(object):
             self.baton = nxt
             self.cv.notify_all()
             while self.baton != p.pid:
+                if self.aborted:
+                    p.killed = True
+                    raise SimKilled()
                 if not self.cv.wait(timeout=60):
                     self.error = 'scheduler deadlock (pid %d waited 60 s)' % p.pid
                     raise SimKilled()
@@ -139,11 +143,16 @@ class Scheduler(object):
     def wait_turn(self, p):
         with self.cv:
             while self.baton != p.pid:
+                if self.aborted:
+                    raise SimKilled()
                 if not self.cv.wait(timeout=60):
                     self.error = 'scheduler deadlock at start (pid %d)' % p.pid
                     raise SimKilled()
 
     def finish(self, p):
+        if self.aborted:
+            self.finished.add(p.pid)
+            return
         self.finished.add(p.pid)
         self.switch_out(p)
         rest = self.runnable()
@@ -178,7 +187,8 @@ def run_concurrent(sim, specs, chooser, shared_prefixes=()):
             sch.wait_turn(p)
             P._body(p)
         except BaseException as e:        # HarnessError etc.
-            sch.error = sch.error or repr(e)
+            if not sch.aborted:
+                sch.error = sch.error or repr(e)
         finally:
             try:
                 sch.finish(p)
@@ -204,7 +214,22 @@ def run_concurrent(sim, specs, chooser, shared_prefixes=()):
             sch.error = sch.error or 'concurrent run did not finish within 120 s'
         for t in threads:
             t.join(timeout=5)
+    except BaseException:
+        # release every parked thread so that none outlives this run
+        with sch.cv:
+            sch.aborted = True
+            sch.cv.notify_all()
+        for t in threads:
+            t.join(timeout=10)
+        raise
     finally:
+        # whatever happened: no parked thread may outlive this run
+        with sch.cv:
+            sch.aborted = True
+            sch.cv.notify_all()
+        for t in threads:
+            if t.is_alive():
+                t.join(timeout=10)
         K.sched = None
         K.active = False
         K.cur = None
